@@ -436,6 +436,7 @@ func (p *PitCsTree) eraseCsDataFromReplacementStrategy(index uint64) {
 		entry.node.csEntry = nil
 		delete(p.csMap, index)
 		p.nCsEntries--
+		entry.node.pruneIfEmpty()
 	}
 }
 
